@@ -5,13 +5,16 @@ package c12
 import (
 	"encoding/json"
 	"fmt"
+	"os"
 	"reflect"
+	"sync/atomic"
 	"testing"
 	"time"
 
 	"github.com/failsafe-go/failsafe-go"
 	"github.com/failsafe-go/failsafe-go/circuitbreaker"
 	"github.com/failsafe-go/failsafe-go/fallback"
+	"github.com/failsafe-go/failsafe-go/hedgepolicy"
 	"github.com/failsafe-go/failsafe-go/retrypolicy"
 
 	"pgregory.net/rapid"
@@ -124,6 +127,50 @@ func runDeepCase(t harness.TB, test string, dc deepCase, st *harness.Stats) {
 		harness.Violation(t, prop, test, sig, dc, "%s: %s", dc, fmt.Sprintf(f, a...))
 	}
 	same := func(v any, err error, wv any, we error) bool { return reflect.DeepEqual(v, wv) && err == we }
+
+	// hedge: cancel conditions. The first attempt answers at once with the outcome. Where the rule says it matches, the
+	// hedge delay is 1 h: the outcome must be delivered without waiting for it (no timing involved: an unrecognised match
+	// would wait the hour). Where it does not match, the delay is 300 us and the hedge must run before the call ends.
+	if e == nil {
+		delay := 300 * time.Microsecond
+		if match {
+			delay = time.Hour
+		}
+		hb := hedgepolicy.BuilderWithDelay[any](delay).WithMaxHedges(1)
+		for _, tg := range targets {
+			hb.CancelOnResult(tg)
+		}
+		var started atomic.Int32
+		type res struct {
+			v   any
+			err error
+		}
+		done := make(chan res, 1)
+		go func() {
+			v, err := failsafe.Get(func() (any, error) {
+				if started.Add(1) == 1 {
+					return out, nil
+				}
+				return "TERMINAL", nil
+			}, hb.Build())
+			done <- res{v, err}
+		}()
+		select {
+		case r := <-done:
+			n := started.Load()
+			if match && (n != 1 || !same(r.v, r.err, out, nil)) {
+				fail("cancel-deep-hedge", "hedge carrier: %d attempts started, returned (%v,%v); the outcome equals a CancelOnResult value, so it is delivered without a hedge", n, r.v, r.err)
+			}
+			if !match && n != 2 {
+				fail("cancel-deep-hedge", "hedge carrier: %d attempts started, returned (%v,%v); the outcome equals no CancelOnResult value, so the hedge runs", n, r.v, r.err)
+			}
+		case <-harness.After(10 * time.Second):
+			fail("cancel-deep-hedge", "hedge carrier: nothing delivered 10 s after the first attempt answered (hedge delay %v); the documented rule says match=%v", delay, match)
+		}
+	}
+	if os.Getenv("VERIF_DEEP_CARRIER") == "hedge" {
+		return // run on behalf of C09: the other carriers are C12's
+	}
 
 	// fallback
 	fb := fallback.BuilderWithResult[any]("SENTINEL")
